@@ -42,9 +42,59 @@ pub enum Op {
     ByName(usize),
     /// by_index_decrypt with the right password
     OpenPw(usize),
+    /// this handle's own reader fails its k-th I/O call from now (once)
+    FailNext(u64),
 }
 
-type Ar = zip::ZipArchive<Cursor<Vec<u8>>>;
+/// Per-handle reader: an in-memory cursor whose next k-th I/O call can be made to fail once. Cloning it (which is what
+/// `ZipArchive::clone` does) gives the clone its own, unarmed control block, registered for the harness to reach.
+#[derive(Default)]
+pub struct Ctl {
+    calls: std::cell::Cell<u64>,
+    fail_at: std::cell::Cell<Option<u64>>,
+}
+thread_local! {
+    static LAST_CTL: std::cell::RefCell<Option<std::rc::Rc<Ctl>>> = const { std::cell::RefCell::new(None) };
+}
+pub struct FReader {
+    cur: Cursor<Vec<u8>>,
+    ctl: std::rc::Rc<Ctl>,
+}
+impl FReader {
+    fn new(data: Vec<u8>) -> FReader {
+        FReader { cur: Cursor::new(data), ctl: Default::default() }
+    }
+    fn point(&self) -> std::io::Result<()> {
+        let n = self.ctl.calls.get();
+        self.ctl.calls.set(n + 1);
+        if self.ctl.fail_at.get() == Some(n) {
+            self.ctl.fail_at.set(None);
+            return Err(std::io::Error::new(std::io::ErrorKind::Other, "injected failure of this handle's reader"));
+        }
+        Ok(())
+    }
+}
+impl Clone for FReader {
+    fn clone(&self) -> FReader {
+        let ctl: std::rc::Rc<Ctl> = Default::default();
+        LAST_CTL.with(|l| *l.borrow_mut() = Some(ctl.clone()));
+        FReader { cur: self.cur.clone(), ctl }
+    }
+}
+impl Read for FReader {
+    fn read(&mut self, buf: &mut [u8]) -> std::io::Result<usize> {
+        self.point()?;
+        self.cur.read(buf)
+    }
+}
+impl std::io::Seek for FReader {
+    fn seek(&mut self, pos: std::io::SeekFrom) -> std::io::Result<u64> {
+        self.point()?;
+        self.cur.seek(pos)
+    }
+}
+
+type Ar = zip::ZipArchive<FReader>;
 const PW: &[u8] = b"clone-pw";
 
 /// One handle: the archive lives behind a raw pointer so that an open ZipFile (which borrows
@@ -53,10 +103,20 @@ struct Handle {
     ar: *mut Ar,
     file: Option<zip::read::ZipFile<'static>>,
     log: Vec<String>,
+    ctl: Option<std::rc::Rc<Ctl>>,
 }
 impl Handle {
     fn new(ar: Ar) -> Handle {
-        Handle { ar: Box::into_raw(Box::new(ar)), file: None, log: vec![] }
+        Handle { ar: Box::into_raw(Box::new(ar)), file: None, log: vec![], ctl: None }
+    }
+    /// a clone of `base`, with the control block of the clone's reader
+    fn clone_of(base: &Ar) -> Handle {
+        LAST_CTL.with(|l| *l.borrow_mut() = None);
+        let a = base.clone();
+        let ctl = LAST_CTL.with(|l| l.borrow_mut().take());
+        let mut h = Handle::new(a);
+        h.ctl = ctl;
+        h
     }
     fn step(&mut self, op: Op, names: &[String]) {
         let obs = match op {
@@ -119,6 +179,13 @@ impl Handle {
                 self.file = None;
                 "close".into()
             }
+            Op::FailNext(k) => match &self.ctl {
+                Some(c) => {
+                    c.fail_at.set(Some(c.calls.get() + k));
+                    format!("fail-next({k})")
+                }
+                None => "fail-next: no control block (reader was not cloned?)".into(),
+            },
         };
         self.log.push(obs);
     }
@@ -151,6 +218,13 @@ pub fn scripts() -> Vec<Vec<Op>> {
         vec![OpenPw(4), DataStart, ReadToEnd, Meta],
         vec![OpenPw(4), Read(3), OpenRaw(4), DataStart],
         vec![Open(4), OpenPw(4), Read(9), DataStart],
+        // a transient failure of ONE handle's reader inside its first open of an entry nobody has opened yet
+        vec![FailNext(0), Open(1), Open(1), ReadToEnd],
+        vec![FailNext(1), Open(1), DataStart, ReadToEnd],
+        vec![FailNext(2), Open(3), Open(3), ReadToEnd],
+        vec![FailNext(3), Open(1), Meta, Open(1)],
+        vec![FailNext(4), OpenRaw(2), OpenRaw(2), ReadToEnd],
+        vec![Open(0), FailNext(1), Read(9), ReadToEnd],
     ]
 }
 
@@ -201,8 +275,9 @@ fn interleavings(lens: &[usize]) -> Vec<Vec<u8>> {
 }
 
 fn alone(bytes: &[u8], script: &[Op], names: &[String]) -> Vec<String> {
-    let ar = zip::ZipArchive::new(Cursor::new(bytes.to_vec())).expect("archive");
-    let mut h = Handle::new(ar);
+    let base = zip::ZipArchive::new(FReader::new(bytes.to_vec())).expect("archive");
+    let mut h = Handle::clone_of(&base);
+    drop(base);
     for op in script {
         h.step(*op, names);
     }
@@ -213,8 +288,8 @@ fn check_tuple(bytes: &[u8], names: &[String], scr: &[&Vec<Op>], ils: &[Vec<u8>]
     for (ii, il) in ils.iter().enumerate() {
         st.evals += 1;
         let r = guard(|| {
-            let base = zip::ZipArchive::new(Cursor::new(bytes.to_vec())).expect("archive");
-            let mut hs: Vec<Handle> = (0..scr.len()).map(|_| Handle::new(base.clone())).collect();
+            let base = zip::ZipArchive::new(FReader::new(bytes.to_vec())).expect("archive");
+            let mut hs: Vec<Handle> = (0..scr.len()).map(|_| Handle::clone_of(&base)).collect();
             drop(base);
             let mut pc = vec![0usize; scr.len()];
             for &h in il {
@@ -275,10 +350,10 @@ pub fn run(args: &Args) -> i32 {
     let n = all.len();
     let il2 = interleavings(&[4, 4]);
     let il3 = interleavings(&[4, 4, 4]);
-    let triple_ids: Vec<usize> = if thorough { vec![0, 1, 2, 3, 4, 5, 12, 13, 14] } else { vec![0, 1, 2, 12, 13] };
+    let triple_ids: Vec<usize> = if thorough { vec![0, 1, 2, 3, 4, 5, 12, 13, 14, 16, 17, 19] } else { vec![0, 1, 2, 12, 13, 16] };
     let triples = triple_ids.len();
     ctx.rule = format!(
-        "E-SEQ at API-call granularity on one thread: handles are archive.clone() (each with its own cloned Cursor) of one 5-entry archive (stored, deflated, zstd+large_file, bzip2 with local-only extra data, ZipCrypto+deflated). {} scripts of 4 operations over {{by_index, by_index_raw, by_name, by_index_decrypt, read(k), read_to_end, data_start/header_start, metadata, close, reopen, out-of-range index}}. \
+        "E-SEQ at API-call granularity on one thread: handles are archive.clone() (each with its own cloned Cursor) of one 5-entry archive (stored, deflated, zstd+large_file, bzip2 with local-only extra data, ZipCrypto+deflated). {} scripts of 4 operations over {{by_index, by_index_raw, by_name, by_index_decrypt, a one-shot failure of the handle's own reader at its k-th next I/O call, read(k), read_to_end, data_start/header_start, metadata, close, reopen, out-of-range index}}. \
          ALL {} interleavings of every ordered pair of scripts ({} pairs) and ALL {} interleavings of every ordered triple over {} of the scripts ({} triples). Oracle: each handle's observation log equals that of its script run alone on a freshly opened archive. \
          Plus run-time Send/Sync probes of ZipArchive<Cursor<Vec<u8>>>, ZipArchive<std::fs::File> and &ZipArchive. Thread-level interleavings: separate loom harness (2 threads x 2 entries, 3 threads x 1 entry; all schedules incl. Relaxed visibility). distinct_nontrivial = distinct (script tuple, interleaving) executions (counted).",
         n,
@@ -293,8 +368,8 @@ pub fn run(args: &Args) -> i32 {
     ctx.bound("scripts", json!(all.iter().map(|s| format!("{s:?}")).collect::<Vec<_>>()));
 
     // (c) auto traits
-    let send_cursor = <Probe<Ar>>::SEND;
-    let sync_cursor = <ProbeSync<Ar>>::SYNC;
+    let send_cursor = <Probe<zip::ZipArchive<Cursor<Vec<u8>>>>>::SEND;
+    let sync_cursor = <ProbeSync<zip::ZipArchive<Cursor<Vec<u8>>>>>::SYNC;
     let send_file = <Probe<zip::ZipArchive<std::fs::File>>>::SEND;
     let sync_file = <ProbeSync<zip::ZipArchive<std::fs::File>>>::SYNC;
     ctx.stats.evals += 4;
